@@ -69,6 +69,36 @@ claim("C44", "S3",
       "operator shapes (factory / application / subscribe / handlers).",
       "ast staging analysis at the L0/L1 boundary + statelessness of curry_flip")
 
+claim("C25", "S2",
+      "Lock discipline: the deciding read and the write of is_disposed are one locked region (atomic test-and-set), the "
+      "action runs only on the path that performed the write and from nowhere else; BooleanDisposable.dispose only "
+      "flips its flag; ScheduledDisposable.dispose only schedules a function that disposes its inner "
+      "SingleAssignmentDisposable. Data-race freedom + atomic test-and-set is the standard at-most-once argument for "
+      "every interleaving, which no sampled thread test can give.",
+      "threading.RLock trusted; exactly-once of the inner SingleAssignmentDisposable is C26's claim; no concrete "
+      "schedule is executed.",
+      "ast lock-region analysis (guarded-by, test-and-set in one region, effect on winning path)")
+
+claim("C26", "S2",
+      "Lock discipline + ownership hand-off typestate on the four containers: writes to guarded fields under the lock; no "
+      "decision on a guarded field read outside it (monotone early exits / pure getters excepted); path enumeration of "
+      "every mutator shows an assigned/added item is stored xor disposed, a swapped-out item is disposed exactly once, "
+      "the winner of dispose() takes+clears+disposes and losers dispose nothing; composite dispose/clear work on a "
+      "snapshot swapped out under the lock; SingleAssignmentDisposable rejects a second assignment under the lock.",
+      "threading.RLock trusted; paths enumerate loops 0/1 times; no concrete interleaving is executed — the rules are "
+      "the standard sufficient discipline for all interleavings.",
+      "ast lock-region analysis + path-sensitive hand-off typestate")
+
+claim("C27", "S2",
+      "Lock discipline on RefCountDisposable/InnerDisposable: guarded-by for count / is_primary_disposed / is_disposed; "
+      "is_disposed set (and the underlying disposed, outside the lock, on exactly those paths) only under count == 0 and "
+      "primary disposed decided in one region; primary test-and-set; single decrement per release; getter decides "
+      "inert-vs-increment under the lock; the inner disposable swaps its parent under its lock and releases only the "
+      "parent it obtained.",
+      "The abstract model over unbounded histories named by the property is model checking, outside this family; "
+      "decided here is the discipline that implies it. RLock trusted.",
+      "ast lock-region analysis + path typestate")
+
 na("C15", "arithmetic over run-time timestamps (queue ordering by timestamp + duetime, 'exactly d later'); no structural "
           "clause that is both necessary and robust beyond ownership/guarding/falsy rules already decided under "
           "C02/C03/C08/C09, whose scope includes these files")
